@@ -701,6 +701,7 @@ impl Session {
     /// executes one protocol line; returns the canonical answer and the truthful-error list
     /// computed from the harness's own shadow bookkeeping
     pub fn exec(&mut self, line: &str) -> (Ans, Vec<String>) {
+        crate::fatal::set_current(line);
         let t: Vec<&str> = line.split_whitespace().collect();
         let num = |s: &str| s.parse::<usize>().ok();
         match t.as_slice() {
